@@ -29,6 +29,9 @@ INFO = [
     dict(id="ssporUpdateModes", file="pysensors/reconstruction/_sspor.py", cls="SSPOR", func="update_n_basis_modes"),
     dict(id="sspocUpdateModes", file="pysensors/classification/_sspoc.py", cls="SSPOC", func="update_n_basis_modes"),
     dict(id="sspocFit", file="pysensors/classification/_sspoc.py", cls="SSPOC", func="fit"),
+    # the same setter with calls of sub-objects' fit methods counted as failure points (scikit-learn refusing the refit data):
+    # NOT atomic – the count and the selection are stored before `classifier.fit` (finding F16)
+    dict(id="sspocUpdateSensorsExternal", file="pysensors/classification/_sspoc.py", cls="SSPOC", func="update_sensors", external=True),
 ]
 REFIT_METHODS = ("fit", "partial_fit", "fit_transform", "set_params")
 
@@ -66,9 +69,10 @@ def seq(a, b):
 
 
 class Tr:
-    def __init__(self, cls: Cls):
+    def __init__(self, cls: Cls, external=False):
         self.cls = cls
         self.stack = []
+        self.external = external      # sub-object refits may raise (before they write)
 
     # effects of the calls inside an expression, in evaluation order (approximated by source order)
     def calls(self, node):
@@ -83,7 +87,8 @@ class Tr:
                 out = seq(out, self.method(f.attr))
             elif isinstance(f, ast.Attribute) and isinstance(f.value, ast.Attribute) and isinstance(f.value.value, ast.Name) \
                     and f.value.value.id == "self" and f.attr in REFIT_METHODS:
-                out = seq(out, f'(.write "{f.value.attr}.{f.attr}()")')
+                w = f'(.write "{f.value.attr}.{f.attr}()")'
+                out = seq(out, f"(.branch .fail {w})" if self.external else w)
         return out
 
     def method(self, name):
@@ -210,7 +215,7 @@ def analyse(repo):
             cls = Cls(repo, cfg["file"], cfg["cls"])
             if cls.node is None or cfg["func"] not in cls.methods:
                 raise Untranslatable("entry point not found")
-            tr = Tr(cls)
+            tr = Tr(cls, external=bool(cfg.get("external")))
             tr.stack.append(cfg["func"])
             site["tree"] = tr.block(cls.body(cfg["func"]))
             site["found"] = True
